@@ -18,6 +18,7 @@ import Driver.C18
 import Driver.C12
 import Driver.C19
 import Driver.C06
+import Driver.C08
 /-
   Line-protocol driver: one operation per input line, one canonical output line per operation.
   Imports `Model/` only (no Mathlib, no proofs) so that it links as a `lean_exe`.
@@ -34,6 +35,7 @@ structure DState where
   cons : Amqp.Consumers.S := {}
   deliv : Amqp.Deliver.S := {}
   transp : Amqp.Transport.T := {}
+  life : Amqp.Lifecycle.L := {}
 
 def handlers : List Handler := [
   Driver.C04.handle,
@@ -74,6 +76,9 @@ def step (st : DState) (line : String) : DState × String :=
   | none =>
   match Driver.C06.stepCmd st.transp args with
   | some (d, o) => ({ st with transp := d }, o)
+  | none =>
+  match Driver.C08.stepCmd st.life args with
+  | some (d, o) => ({ st with life := d }, o)
   | none =>
     match handlers.findSome? (fun h => h args) with
     | some o => (st, o)
